@@ -901,10 +901,12 @@ impl DeduplicateTracker {
 
     fn attribute_name(&mut self, xot: &Xot, name: NameId) {
         let namespace = xot.namespace_for_name(name);
+        // mark every enclosing default declaration of this namespace, not only
+        // the nearest: the nearest one may be gone (popped or removed) by the
+        // time an outer alias prefix is considered for removal
         for entry in self.stack.iter_mut().rev() {
             if entry.default_namespace == Some(namespace) {
                 entry.in_use_by_attribute = true;
-                return;
             }
         }
     }
